@@ -6,7 +6,8 @@ Model of the CDC delivery pipeline of ONE node (C25). (File/namespace `CdcPipe`,
   cdc/service.go writeToBatcher (HWM filter), queue.Queue as batcher (size-triggered and
                  flushed by the snapshot sync; the delay timer is modelled as the `timer`
                  op), mainLoop (batch → FIFO keyed by the highest index in the batch),
-                 leaderLoop (FIFO → endpoint with unbounded retries, HWM := key on success),
+                 leaderLoop (FIFO → decompress (failure = drop) → endpoint with unbounded
+                 retries, HWM := key on success),
                  leaderHWMLoop (`tick`: broadcast + prune), followerLoop (`hwm n`: prune),
                  NewService (`restart`: HWM := 0)
   cdc/fifo.go    the disk queue (RqModel.Fifo, proved in C26)
@@ -119,7 +120,15 @@ structure St where
   /-- `transmitMaxRetries`: 0 = retry forever (the default), n > 0 = give up on an event
   after n failed attempts -/
   maxRetries : Nat := 0
-  /-- events given up on after exhausting a finite retry limit ("dropped_failed_to_send") -/
+  /-- what-if parameter: FIFO keys whose stored bytes `flate.Decompress` rejects. The FIFO
+  stores `flate.Compress(json(batch))`; the tree's `Decompress` inverts `Compress` for every
+  input whatever its size (regenerated fact `flateDecompressBody`, round-trip oracle in the
+  correspondence run), so the tree and the driver have `[]`. Only `decode_failure_witness`
+  uses another value. -/
+  undecodable : List Nat := []
+  /-- events the leader loop gave up on: the finite retry limit was exhausted
+  ("dropped_failed_to_send"), or the stored bytes did not decompress (logged, `unsent := nil`,
+  `continue`: an explicit DROP, the HWM stays) -/
   dropped : List (Nat × Batch) := []
   /-- broadcasts made by this node -/
   broadcasts : List Nat := []
@@ -163,6 +172,9 @@ def pump : Nat → St → St
     match s.held with
     | some (k, b) =>
       if k ≤ s.hwm then pump fuel { s with held := none }   -- HWM has passed it meanwhile: skipped
+      else if k ∈ s.undecodable then
+        -- `flate.Decompress(ev.Data)` fails: the event is dropped before any send
+        pump fuel { s with held := none, dropped := s.dropped ++ [(k, b)] }
       else if s.up then pump fuel { s with held := none, delivered := s.delivered ++ [(k, b)], hwm := k }
       else if s.maxRetries ≠ 0 then
         -- the outage outlasts the finite retry limit: the event is dropped, the HWM stays
